@@ -18,6 +18,7 @@ mod murust;
 mod pipeprog;
 mod ptrprog;
 mod serdeprog;
+mod hexprog;
 mod sigs;
 
 fn main() {
@@ -42,6 +43,46 @@ fn main() {
             Err(e) => println!("ERROR * {}: cannot read: {}", name, e),
         }
     }
+    if std::env::var("GA2COQ_COVERAGE").is_ok() {
+        // listing for the maintainers of the translator: every fn with more than one statement
+        for (name, file) in &files {
+            fn walk_block(name: &str, owner: &str, ident: &str, b: &syn::Block) {
+                let mut n = b.stmts.len();
+                if n == 1 {
+                    if let syn::Stmt::Expr(syn::Expr::Unsafe(u), None) = &b.stmts[0] {
+                        n = u.block.stmts.len();
+                    }
+                }
+                if n > 1 {
+                    println!("MULTI {} {} {} {}", name, owner, ident, n);
+                }
+            }
+            for it in &file.items {
+                match it {
+                    syn::Item::Fn(f) => walk_block(name, "-", &f.sig.ident.to_string(), &f.block),
+                    syn::Item::Impl(im) => {
+                        let owner: String = quote::ToTokens::to_token_stream(&im.self_ty).to_string().split_whitespace().collect();
+                        let tr = im.trait_.as_ref().map(|t| t.1.segments.last().unwrap().ident.to_string()).unwrap_or_default();
+                        for ii in &im.items {
+                            if let syn::ImplItem::Fn(f) = ii {
+                                walk_block(name, &format!("{}:{}", tr, owner), &f.sig.ident.to_string(), &f.block);
+                            }
+                        }
+                    }
+                    syn::Item::Trait(t) => {
+                        for ti in &t.items {
+                            if let syn::TraitItem::Fn(m) = ti {
+                                if let Some(b) = &m.default {
+                                    walk_block(name, &format!("trait {}", t.ident), &m.sig.ident.to_string(), b);
+                                }
+                            }
+                        }
+                    }
+                    _ => {}
+                }
+            }
+        }
+    }
     let mut gen_iter = String::new();
     murust::gen_iter(&files, &mut gen_iter);
     write_out(out, "GenIter.v", &gen_iter);
@@ -64,6 +105,8 @@ fn main() {
     sigs::gen_tuple_bodies(&files, &mut g);
     sigs::gen_impl_methods(&files, &mut g);
     sigs::gen_impl_bounds(&files, &mut g);
+    sigs::gen_thin_bodies(&files, &mut g);
+    sigs::gen_small_bodies(&files, &mut g);
     write_out(out, "GenSigs.v", &g);
     let mut g = String::new();
     sigs::gen_deleg(&files, &mut g);
@@ -89,6 +132,9 @@ fn main() {
     let mut g = String::new();
     serdeprog::gen_serde(&files, &mut g);
     write_out(out, "GenSerde.v", &g);
+    let mut g = String::new();
+    hexprog::gen_hex(&files, &mut g);
+    write_out(out, "GenHex.v", &g);
 }
 
 fn write_out(out: &Path, name: &str, body: &str) {
